@@ -308,6 +308,9 @@ LOG_EXEMPT = {
         'ConstructedPayloadDecoderBase.valueDecoder, schemaless branch: guarded by `substrate.tell() < original_position + '
         'length`, which is false after _decodeComponentsSchemaless (its loop runs while exactly that holds and length >= 0 '
         'here): unreachable (paper argument from the loop exit condition)',
+    ('pyasn1/codec/ber/decoder.py', 'yield'):
+        'the same block (schemaless branch of ConstructedPayloadDecoderBase.valueDecoder): it forwards the underruns of that '
+        'unreachable read',
 }
 
 
@@ -409,6 +412,15 @@ def g_log_blocks(out):
                                 bad.append('%s:%d assigns %s under LOG' % (rel, x.lineno, ast.unparse(t)))
                         if isinstance(x, (ast.Return, ast.Raise, ast.Break, ast.Continue)):
                             bad.append('%s:%d control flow under LOG' % (rel, x.lineno))
+                        if isinstance(x, (ast.Yield, ast.YieldFrom)):
+                            # a yield under LOG hands the caller an item (an underrun marker) that the same call without
+                            # logging does not produce: the one-shot decoders turn it into an error
+                            if (rel, 'yield') in LOG_EXEMPT and any(
+                                    isinstance(c, ast.Call) and ast.unparse(c.func) == 'readFromStream'
+                                    for b in node.body for c in ast.walk(b)) and not any(e.endswith(' yield') for e in exempt_used):
+                                exempt_used.append('%s:%d yield' % (rel, x.lineno))
+                                continue
+                            bad.append('%s:%d yields under LOG' % (rel, x.lineno))
                         if isinstance(x, ast.Call):
                             nm = ast.unparse(x.func)
                             if nm == 'peekIntoStream':
@@ -428,7 +440,7 @@ def g_log_blocks(out):
                 continue
             bad.append('%s:%d loop variable %s bound under LOG is a program variable of %s (read outside the LOG blocks)' % (
                 rel, line, name, fname))
-    ob(out, 'frame::codecs#log-blocks-effect-free', not bad and len(exempt_used) <= 1 and len(exempt_vars) <= 1,
+    ob(out, 'frame::codecs#log-blocks-effect-free', not bad and len(exempt_used) <= 2 and len(exempt_vars) <= 1,
        '; '.join(bad[:6]) or '%d `if LOG:` blocks; exempt with justification: %s %s' % (n, exempt_used, exempt_vars),
        witness={'sites': bad}, n=n)
 
